@@ -1,5 +1,6 @@
 //! Support for different DBC file versions
 
+use crate::header::validate_record_layout;
 use crate::{DbcHeader, Error, Result};
 use std::io::{Read, Seek, SeekFrom};
 
@@ -197,6 +198,9 @@ impl Wdb2Header {
                 (0, 0, 0, 0, 0)
             };
 
+        // Perform the same basic validation as for a WDBC header
+        validate_record_layout(record_count, field_count, record_size)?;
+
         Ok(Self {
             magic,
             record_count,
@@ -337,6 +341,9 @@ impl Wdb5Header {
 
         reader.read_exact(&mut buf2)?;
         let id_index = u16::from_le_bytes(buf2);
+
+        // Perform the same basic validation as for a WDBC header
+        validate_record_layout(record_count, field_count, record_size)?;
 
         Ok(Self {
             magic,
